@@ -1,5 +1,6 @@
 import Tickit.Proof.WinExpose
 import Tickit.Proof.WinFlush
+import Tickit.Gen.Win
 /-
   C02 — A window's drawing is confined to the cells it owns, in its own coordinates.
 
@@ -115,5 +116,12 @@ def handed_rects_disjoint : Prop :=
     flushRender beh st t = .ok (st', shots) →
     t.root.damage.Pairwise Rect.Disjoint → (visitIds t (t.wins.size + 1) 0).Nodup →
     ∀ w, (shots.filter (fun sh => sh.win = w)).Pairwise (fun a b => Rect.Disjoint a.rect b.rect)
+
+/-! ### facts regenerated from the C source on every run -/
+
+/-- The window creation flags are four distinct bits (the harness and the model decode them one by one). -/
+theorem gen_window_flags :
+    [Gen.Win.flagHidden, Gen.Win.flagLowest, Gen.Win.flagRootParent, Gen.Win.flagStealInput] = [1, 2, 4, 8] := by
+  decide
 
 end Tickit.Props.C02
